@@ -95,6 +95,20 @@ func (tr *Tr) evalCall(env *CEnv, x *CCall) (Value, types.Type) {
 			h := tr.heapVar(env.st, elemPrefix(et), arr2(sortInt))
 			tr.arrayCountAxioms()
 			return Sc{T: fmt.Sprintf("(|%s| %s %s %s %s)", id.Name, sSel(h, sl.Arr), sl.Off, sAdd(sl.Off, sl.Len), val)}, nil
+		case "sumpay":
+			v, t := tr.evalC(env, x.Args[0])
+			sl := tr.asSl(tr.rval(env, v, t))
+			k := tr.evalInt(env, x.Args[1])
+			et := t.Underlying().(*types.Slice).Elem()
+			return Sc{T: tr.sumPayload(env.st, et, sl, k)}, nil
+		case "sumpayarr":
+			av, _ := tr.evalC(env, x.Args[0])
+			dv, _ := tr.evalC(env, x.Args[3])
+			tr.sumPayDecl()
+			return Sc{T: "(|sumpl| " + av.(Ar).T + " " + tr.evalInt(env, x.Args[1]) + " " + tr.evalInt(env, x.Args[2]) + " " + dv.(Ar).T + ")"}, nil
+		case "le64":
+			v, t := tr.evalC(env, x.Args[0])
+			return Sc{T: tr.le64(env.st, tr.asSl(tr.rval(env, v, t)))}, nil
 		case "psize":
 			v, t := tr.evalC(env, x.Args[0])
 			return Sc{T: tr.protoSize(tr.asSc(tr.rval(env, v, t), t).T)}, nil
